@@ -336,13 +336,13 @@ def h_doc(e, skel, depth):
             expect.append(('equation', None))
         elif it.startswith('THMDEF'):
             # theorem numbered within a sectioning unit, lemma sharing the theorem counter, corollary with its own counter
-            src[0] = src[0].replace('\\begin{document}', '\\newtheorem{thm}{Theorem}[%s]\\newtheorem{lem}[thm]{Lemma}\\newtheorem{cor}{Corollary}\\begin{document}' % within[0])
+            src[0] = src[0].replace('\\begin{document}', '\\newtheorem{thm}{Theorem}[%s]\\newtheorem{lem}[thm]{Lemma}\\newtheorem{theorem}{Corollary}\\begin{document}' % within[0])
         elif it in ('THM', 'LEM'):
             src.append('\\begin{%s}t\\end{%s}' % (it.lower(), it.lower()))
             cnt['thm'] = cnt['thm'] + 1
             expect.append(('thmenv', the(within[0]) + ['.'] + _num(cnt['thm'])))
         elif it == 'COR':
-            src.append('\\begin{cor}t\\end{cor}')
+            src.append('\\begin{theorem}t\\end{theorem}')          # an environment whose counter name starts with "the"
             cnt['cor'] = cnt['cor'] + 1
             expect.append(('thmenv', _num(cnt['cor'])))
         elif it == 'EQN':
